@@ -618,15 +618,18 @@ impl<RW: QueueRW<T>, T> InnerRecv<RW, T> {
         }
     }
 
-    pub fn unsubscribe(self) -> bool {
-        self.reader.get_consumers() == 1
+    pub fn unsubscribe(mut self) -> bool {
+        // decided by this handle's own decrement, not by a count loaded before it
+        unsafe { self.do_unsubscribe_with(|| ()) }
     }
 
-    /// Runs the passed function after unsubscribing the reader from the queue
-    unsafe fn do_unsubscribe_with<F: FnOnce()>(&mut self, f: F) {
+    /// Runs the passed function after unsubscribing the reader from the queue.
+    /// Returns whether this handle was the last one on its stream
+    unsafe fn do_unsubscribe_with<F: FnOnce()>(&mut self, f: F) -> bool {
         if self.alive {
             self.alive = false;
-            if self.reader.remove_consumer() == 1 {
+            let last = self.reader.remove_consumer() == 1;
+            if last {
                 if self
                     .queue
                     .tail
@@ -637,7 +640,10 @@ impl<RW: QueueRW<T>, T> InnerRecv<RW, T> {
             }
             self.queue.manager.remove_token(self.token);
             fence(SeqCst);
-            f()
+            f();
+            last
+        } else {
+            false
         }
     }
 }
@@ -713,8 +719,9 @@ impl<RW: QueueRW<T>, T> FutInnerRecv<RW, T> {
     }
 
     /// Identical to InnerRecv::unsubscribe()
-    pub fn unsubscribe(self) -> bool {
-        self.reader.reader.get_consumers() == 1
+    pub fn unsubscribe(mut self) -> bool {
+        let prod_wait = self.prod_wait.clone();
+        unsafe { self.reader.do_unsubscribe_with(|| prod_wait.notify()) }
     }
 }
 
@@ -754,8 +761,9 @@ impl<RW: QueueRW<T>, R, F: FnMut(&T) -> R, T> FutInnerUniRecv<RW, R, F, T> {
     }
 
     /// Identical to InnerRecv::unsubscribe()
-    pub fn unsubscribe(self) -> bool {
-        self.reader.reader.get_consumers() == 1
+    pub fn unsubscribe(mut self) -> bool {
+        let prod_wait = self.prod_wait.clone();
+        unsafe { self.reader.do_unsubscribe_with(|| prod_wait.notify()) }
     }
 
     pub fn into_multi(self) -> FutInnerRecv<RW, T> {
@@ -1071,7 +1079,9 @@ impl<RW: QueueRW<T>, T> Drop for InnerSend<RW, T> {
 
 impl<RW: QueueRW<T>, T> Drop for InnerRecv<RW, T> {
     fn drop(&mut self) {
-        unsafe { self.do_unsubscribe_with(|| ()) }
+        unsafe {
+            self.do_unsubscribe_with(|| ());
+        }
     }
 }
 
@@ -1113,7 +1123,7 @@ impl<RW: QueueRW<T>, T> Drop for FutInnerRecv<RW, T> {
         unsafe {
             self.reader.do_unsubscribe_with(|| {
                 prod_wait.notify();
-            })
+            });
         }
     }
 }
@@ -1124,7 +1134,7 @@ impl<RW: QueueRW<T>, R, F: for<'r> FnMut(&T) -> R, T> Drop for FutInnerUniRecv<R
         unsafe {
             self.reader.do_unsubscribe_with(|| {
                 prod_wait.notify();
-            })
+            });
         }
     }
 }
